@@ -384,4 +384,40 @@ theorem reach_run {c spec} : ∀ (acts : List Act) {s t}, Reach c spec s → run
 theorem reach_of_run {c spec} (acts : List Act) {t} (h : runActs c (St.init spec) acts = some t) : Reach c spec t :=
   reach_run acts Reach.init h
 
+theorem reach_static {c spec s} (h : Reach c spec s) (k : Nat) :
+    (s.asker k).payload = (spec k).2.1 ∧ (s.asker k).kind = (spec k).1 ∧ (s.asker k).rcap = (spec k).2.2 := by
+  induction h with
+  | init => exact ⟨rfl, rfl, rfl⟩
+  | step a _ hs ih =>
+    have := step_static a hs k
+    exact ⟨this.1.trans ih.1, this.2.1.trans ih.2.1, this.2.2.trans ih.2.2⟩
+
+/-- the actor inside `Reply` can always get out: by delivering, by buffering, by seeing `done`, or — when the
+    asker's timer has fired but `done` is not closed yet — after the asker's own next atom -/
+theorem Inv.reply_progress {c : Cfg} {s : St} (hl : c.legacy = false) (hi : Inv c s) {i v : Nat}
+    (ha : s.actor = .replying i v) :
+    ((step c s .replySend).isSome = true ∧ (s.asker i).chClosed = false) ∨ (step c s .replyDone).isSome = true ∨
+      ((s.asker i).pc = .fired ∧ (step c s (.giveUp i)).isSome = true) := by
+  have hp := hi.ph i
+  have hh : s.mbox.count i + 1 + (s.asker i).buf.length = holds s i := by
+    simp only [holds, ha, actorHolds, if_true, if_pos rfl]
+  unfold Phase at hp
+  cases hpc : (s.asker i).pc <;> rw [hpc] at hp <;> simp only [PhaseOf] at hp
+  · omega
+  · omega
+  · -- waiting: nothing buffered, so either there is room or the asker is in its receive
+    have hb : (s.asker i).buf = [] := List.length_eq_zero_iff.mp (by omega)
+    left
+    refine ⟨?_, hp.2.1⟩
+    by_cases hr : (s.asker i).rcap = 0
+    · simp [step, ha, hp.2.1, hb, hr, hpc]
+    · have : 0 < (s.asker i).rcap := Nat.pos_of_ne_zero hr
+      simp [step, ha, hp.2.1, hb, this]
+  · right; right
+    exact ⟨rfl, by simp [step, hpc, hl]⟩
+  · omega
+  · omega
+  · right; left
+    simp [step, ha, hp.2.2.1, hl]
+
 end FpgoVerif.C13
